@@ -616,3 +616,98 @@ func ruleREC(p *Program, c *Check, funcs []*ssa.Function) {
 		c.Decide(ok, "REC", names[0], "cycle:"+key, p.fpos(comp[0]), map[bool]string{true: reason, false: "recursion cycle " + key + " is not in the table of confirmed cycles (termination unconfirmed)"}[ok])
 	}
 }
+
+// ---------------------------------------------------------------------------
+// ND-5: struct decoding with order-dependent key resolution
+
+// ruleND5: mapstructure v1.1.2 resolves the key of a struct field, when there is no exact match, by ranging over the
+// source map and taking the first key that is equal under case folding (decodeStructFromMap). The repository's structs
+// carry json tags only, so every field of every decoded struct is resolved that way.
+func ruleND5(p *Program, c *Check, funcs []*ssa.Function) {
+	c.Rule("ND-5", "no request object is decoded into a struct by a decoder that resolves keys by ranging over a Go map "+
+		"(mapstructure.Decode with its default configuration: two keys that differ only in letter case are resolved by map iteration order)", 1)
+	for _, f := range funcs {
+		for _, b := range f.Blocks {
+			for _, in := range b.Instrs {
+				call, ok := in.(ssa.CallInstruction)
+				if !ok {
+					continue
+				}
+				g := call.Common().StaticCallee()
+				if g == nil || g.Pkg == nil || g.Pkg.Pkg.Path() != "github.com/mitchellh/mapstructure" {
+					continue
+				}
+				switch g.Name() {
+				case "Decode", "WeakDecode", "DecodeMetadata":
+					c.Fail("ND-5", funcKey(f), "extcall:mapstructure."+g.Name(), p.ipos(in),
+						"struct fields are matched to request keys case-insensitively by ranging over the request map: "+
+							"with two case-variant keys in one object the winner changes from call to call")
+				default:
+					c.Pass("ND-5", funcKey(f), "extcall:mapstructure."+g.Name(), p.ipos(in), "not a default-configured decode")
+				}
+			}
+		}
+	}
+}
+
+// ---------------------------------------------------------------------------
+// VAL-1: validation must not depend on a random draw
+
+// ruleVAL1: Bias.Apply is the only place where a bias parses and validates its props. If the call is control dependent on
+// a comparison with a drawn value, an invalid props object is rejected or answered with a ranking depending on the draw.
+func ruleVAL1(p *Program, c *Check, funcs []*ssa.Function) {
+	c.Rule("VAL-1", "the call that validates the props of an enabled bias (Bias.Apply) is not control dependent on a random draw: "+
+		"a constraint violation must be rejected whether or not the bias happens to be applied", 1)
+	dependsOnDraw := func(v ssa.Value) bool {
+		seen := map[ssa.Value]bool{}
+		var rec func(v ssa.Value, d int) bool
+		rec = func(v ssa.Value, d int) bool {
+			if v == nil || seen[v] || d > 12 {
+				return false
+			}
+			seen[v] = true
+			if call, ok := v.(*ssa.Call); ok {
+				cm := call.Common()
+				if !cm.IsInvoke() && cm.StaticCallee() == nil && isValueGeneratorSig(cm.Value.Type()) {
+					return true
+				}
+			}
+			if in, ok := v.(ssa.Instruction); ok {
+				for _, op := range in.Operands(nil) {
+					if op != nil && *op != nil && rec(*op, d+1) {
+						return true
+					}
+				}
+			}
+			return false
+		}
+		return rec(v, 0)
+	}
+	for _, f := range funcs {
+		for _, b := range f.Blocks {
+			for _, in := range b.Instrs {
+				call, ok := in.(*ssa.Call)
+				if !ok || !call.Common().IsInvoke() || call.Common().Method.Name() != "Apply" {
+					continue
+				}
+				if n := namedOf(call.Common().Value.Type()); n == nil || n.Obj().Name() != "Bias" {
+					continue
+				}
+				problem := ""
+				for d := b.Idom(); d != nil; d = d.Idom() {
+					ifi, ok := d.Instrs[len(d.Instrs)-1].(*ssa.If)
+					if !ok || len(d.Succs) != 2 {
+						continue
+					}
+					through0 := d.Succs[0] == b || d.Succs[0].Dominates(b)
+					through1 := d.Succs[1] == b || d.Succs[1].Dominates(b)
+					if through0 != through1 && dependsOnDraw(ifi.Cond) {
+						problem = "the call is reached only when the comparison at " + p.ipos(ifi) + " with a drawn value succeeds: the props of a bias that is not applied are never parsed"
+						break
+					}
+				}
+				c.Decide(problem == "", "VAL-1", funcKey(f), "invoke:Bias.Apply", p.ipos(in), problem)
+			}
+		}
+	}
+}
